@@ -10,6 +10,8 @@ for m in sorted(glob.glob('/verif/seeded/*/*/meta.json')):
     missed = sorted({'%s (%s)' % (p, r['tier']) for r in runs for p, v in (r.get('checks_run') or {}).items() if not v.get('caught')} - set(caught))
     what = d.get('what', '').replace('|', '/').replace('\n', ' ')
     what = re.sub(r'^#+\s*', '', what)[:150]
+    if str(d.get('status', '')).startswith('superseded'):
+        what += ' *(superseded by a later repair of pony: see meta.json)*'
     rows.append('| %s/%s | %s | %s | %s |' % (prop, name, what, ', '.join(caught) or '—', ', '.join(missed) or '—'))
 table = '| seed | change | caught by | run without catching |\n|---|---|---|---|\n' + '\n'.join(rows)
 p = '/verif/DESIGN.md'
